@@ -31,6 +31,36 @@ func (c *Ctx) funcDecl(pkg, name string) (*ast.FuncDecl, *types.Info) {
 	return c.declOf[f], c.pkgOf[f].TypesInfo
 }
 
+// funcDeclCone: the declaration of pkg.name with the bodies of its private helpers (helpers.go) appended to its own,
+// for rules that scan a function's syntax for what it mentions: a block moved into a helper that only this function
+// calls is still part of what the function does.
+func (c *Ctx) funcDeclCone(pkg, name string) (*ast.FuncDecl, *types.Info) {
+	d, info := c.funcDecl(pkg, name)
+	if d == nil || d.Body == nil || c.Prog == nil {
+		return d, info
+	}
+	fn := c.ssaFunc(c.lookupFunc(pkg, name))
+	if fn == nil {
+		return d, info
+	}
+	cone := helperCone(fn)
+	if len(cone) == 1 {
+		return d, info
+	}
+	cp := *d
+	body := *d.Body
+	body.List = append([]ast.Stmt{}, d.Body.List...)
+	for _, h := range cone[1:] {
+		obj, ok := h.Object().(*types.Func)
+		if !ok || c.declOf[obj] == nil || c.declOf[obj].Body == nil || c.pkgOf[obj] == nil || c.pkgOf[obj].TypesInfo != info {
+			continue
+		}
+		body.List = append(body.List, c.declOf[obj].Body)
+	}
+	cp.Body = &body
+	return &cp, info
+}
+
 func typeKey(t types.Type) string {
 	if t == nil {
 		return "nil"
@@ -776,13 +806,13 @@ func ruleTab3(c *Ctx, r *Reporter) {
 		}
 		_ = srcT
 	}
-	if d, info := c.funcDecl(pkgLungo, "BuildFile"); d != nil {
+	if d, info := c.funcDeclCone(pkgLungo, "BuildFile"); d != nil {
 		literalCovers("BuildFile", d, info, fiT, cfgT, true)
 		literalCovers("BuildFile", d, info, fnsT, nil, false)
 	} else {
 		r.bad("anchor:BuildFile", "-", "not found")
 	}
-	if d, info := c.funcDecl(pkgLungo, "File.BuildCatalog"); d != nil {
+	if d, info := c.funcDeclCone(pkgLungo, "File.BuildCatalog"); d != nil {
 		literalCovers("BuildCatalog", d, info, cfgT, fiT, true)
 		got := selectedFields(d, info, fnsT)
 		for _, f := range structFields(fnsT) {
@@ -791,14 +821,14 @@ func ruleTab3(c *Ctx, r *Reporter) {
 	} else {
 		r.bad("anchor:File.BuildCatalog", "-", "not found")
 	}
-	if d, info := c.funcDecl(pkgMongokit, "Index.Config"); d != nil {
+	if d, info := c.funcDeclCone(pkgMongokit, "Index.Config"); d != nil {
 		literalCovers("Index.Config", d, info, cfgT, cfgT, true)
 	}
-	if d, info := c.funcDecl(pkgLungo, "IndexView.CreateOne"); d != nil {
+	if d, info := c.funcDeclCone(pkgLungo, "IndexView.CreateOne"); d != nil {
 		literalCovers("IndexView.CreateOne", d, info, cfgT, nil, false)
 	}
 	for _, fn := range []struct{ pkg, name string }{{pkgMongokit, "IndexConfig.Equal"}, {pkgLungo, "Transaction.ListIndexes"}} {
-		d, info := c.funcDecl(fn.pkg, fn.name)
+		d, info := c.funcDeclCone(fn.pkg, fn.name)
 		if d == nil {
 			r.bad("anchor:"+fn.name, "-", "not found")
 			continue
